@@ -12,6 +12,7 @@ package sched
 
 import (
 	"fmt"
+	"os"
 	"runtime"
 	"sort"
 	"strings"
@@ -95,15 +96,19 @@ type Exec struct {
 	nextMu  int
 	anon    int
 
-	free     atomic.Bool // teardown: gates pass through
-	aborting atomic.Bool // abandon: gates Goexit
+	free      atomic.Bool // teardown: gates pass through
+	freeGates atomic.Int64
+	aborting  atomic.Bool // abandon: gates Goexit
 
-	start    time.Time
-	Horizon  time.Duration
-	UseTime  bool // offer "T" (advance virtual time) as a choice
-	FSGates  bool // harness flag consulted by fs hooks
-	MapOrder bool // explore map iteration orders (default: sorted order only)
-	seq      uint64
+	start   time.Time
+	Horizon time.Duration
+	UseTime bool // offer "T" (advance virtual time) as a choice
+	// EagerTime also offers T while threads are runnable; by default virtual time
+	// only advances when every thread is blocked (no runnable thread is starved).
+	EagerTime bool
+	FSGates   bool // harness flag consulted by fs hooks
+	MapOrder  bool // explore map iteration orders (default: sorted order only)
+	seq       uint64
 	// EventCostFree makes firing an event cost 0 when no thread is enabled.
 	MaxSteps int
 
@@ -238,8 +243,25 @@ func Gate(op *Op) {
 	x.gateAny(op)
 }
 
+// freeGate is a gate during teardown: open.  A thread that keeps passing gates
+// forever (a spin loop in the code under test) is unwound so the bubble can end.
+func (x *Exec) freeGate() {
+	if n := x.freeGates.Add(1); n > 20000 {
+		g := goid()
+		x.mu.Lock()
+		th := x.threads[g]
+		x.mu.Unlock()
+		if th != nil && !th.exiting && g != x.ctlGoid {
+			th.exiting = true
+			x.aborting.Store(true)
+			runtime.Goexit()
+		}
+	}
+}
+
 func (x *Exec) gateAny(op *Op) {
 	if x.free.Load() {
+		x.freeGate()
 		return
 	}
 	g := goid()
@@ -535,7 +557,7 @@ func (x *Exec) loop() {
 				}
 			}
 		}
-		if x.UseTime && x.Now() < x.Horizon {
+		if x.UseTime && x.Now() < x.Horizon && (nthreads == 0 || x.EagerTime) {
 			alts = append(alts, alt{time: true})
 			descs = append(descs, "T")
 			if len(alts) == 1 {
@@ -656,6 +678,11 @@ func Run(t *testing.T, h *Harness, prefix []Choice) (res *Result) {
 			fill()
 			res.EngineErr = fmt.Errorf("engine: %v", r)
 			cur.Store(nil)
+			if os.Getenv("VERIF_DEBUG") != "" {
+				buf := make([]byte, 1<<20)
+				n := runtime.Stack(buf, true)
+				fmt.Fprintf(os.Stderr, "ENGINE ERROR %v\n%s\n", r, buf[:n])
+			}
 		}
 	}()
 	synctest.Test(t, func(t *testing.T) {
@@ -699,22 +726,13 @@ func Run(t *testing.T, h *Harness, prefix []Choice) (res *Result) {
 		if sentinelStop != nil {
 			close(sentinelStop)
 		}
-		abandon := x.Stuck != "" || x.Violation != nil || x.EngineErr != nil
-		if abandon {
-			// parked threads unwind with Goexit; nothing they did matters any more
-			x.aborting.Store(true)
-		} else {
-			x.free.Store(true)
-		}
+		// From here on the model state is meaningless; the real mutexes (kept in
+		// step with the model all along) take over and every thread runs free.
+		x.free.Store(true)
 		x.mu.Lock()
 		for _, th := range x.sortedThreads() {
 			if th.parked && !th.done {
-				// the model state is meaningless from here on; real mutexes take over
-				if abandon {
-					x.release(th, 1)
-				} else {
-					x.release(th, 0)
-				}
+				x.release(th, 0)
 			}
 		}
 		x.mu.Unlock()
@@ -796,7 +814,11 @@ func (x *Exec) Fail(format string, args ...any) {
 // MuLock is called by the shim before acquiring the real mutex.
 func MuLock(m *MuState, read bool) {
 	x := cur.Load()
-	if x == nil || x.free.Load() {
+	if x == nil {
+		return
+	}
+	if x.free.Load() {
+		x.freeGate()
 		return
 	}
 	g := goid()
